@@ -43,6 +43,8 @@ STATEMENTS = [
     'import os\nimport sys', 'import os\nimport sys as system\nimport os.path', 'from os import path\nfrom os import sep',
     'from os import path\nfrom sys import argv\nfrom sys import exit', 'from os import *\nfrom os import path', 'from . import sibling\nfrom . import other',
     'from .pkg import a\nfrom ..pkg import b', 'import os\nvalue = 1\nimport sys', 'from os import path\nimport sys\nfrom os import sep',
+    'import os\nfrom sys import argv\nimport json\nimport re', 'from os import path\nimport sys\nimport json\nfrom os import sep\nfrom os import getcwd\nimport re',
+    'from x import a\nfrom .x import b', 'from . import a\nfrom .. import b', 'from .x import a\nfrom ..x import b\nfrom x import c',
     'annotated_name: int = 1', 'annotated_name: int', '(annotated_name): int = 1', 'holder.attribute: int = 1', 'holder[0]: int = 2',
     'class Derived(object): pass', 'class Derived(Base, object, metaclass=Meta): pass', 'class Derived(module.object): pass', 'class Derived(object()): pass',
     'raise ValueError()', 'raise ValueError', 'raise ValueError("message")', 'raise CustomError()', 'raise ValueError() from KeyError()',
